@@ -195,7 +195,8 @@ func examineFiles(
 				continue
 			}
 
-			if isFileSkipped(dir, content.Name(), runOnly) {
+			if isFileSkipped(dir, content.Name(), runOnly) ||
+				fileOfSkippedTests(snapPath, runOnly) {
 				continue
 			}
 
